@@ -43,6 +43,12 @@ class _UnhashableTable(_Table):
         return self is other
 
 
+class _FalsyTable(_Table):
+    """a call-back object that is falsy (an empty callable container: __len__ == 0)"""
+    def __len__(self):
+        return 0
+
+
 class NativeBackend(BackendBase):
     sym = False
 
@@ -177,8 +183,8 @@ class NativeBackend(BackendBase):
     def mkdict(self, pairs):
         return {k: v for k, v in pairs}
 
-    def uf(self, name, domains, ret="bool", fault=False, fault_cls="HarnessFault", unhashable=False):
-        t = (_UnhashableTable if unhashable else _Table)(self, name, self._hole(name), ret)
+    def uf(self, name, domains, ret="bool", fault=False, fault_cls="HarnessFault", unhashable=False, falsy=False):
+        t = (_UnhashableTable if unhashable else _FalsyTable if falsy else _Table)(self, name, self._hole(name), ret)
         t.fault_cls = fault_cls
         self.keep.append(t)
         self.labels[id(t)] = name
